@@ -127,7 +127,7 @@ def random_case(rng, ctor, n, lcd_off=True, dma=False):
 def generate(rng, tier):
     cases = []
     quick = tier == 'quick'
-    cfgs = CONFIGS[:3] if quick else CONFIGS
+    cfgs = CONFIGS
     for name, ctor in cfgs:
         for v in VALUES:
             cases.append(('sweep_%s_%02x' % (name, v), sweep_case(ctor, v)))
